@@ -148,6 +148,8 @@ def run_prog_check(prop, props_files, tier, oracles, features=gen_prog.ALL, n_qu
             msg = "verdict differs on the same program and schedule: the implementation ends with '%s', the verified model with '%s'" % (vi, vm)
         elif prop == "C13" and km != ki and ("stepbound" in (km, ki)):
             msg = "step-bound verdict differs on the same program and schedule: implementation '%s', verified model '%s'" % (vi, vm)
+        elif prop == "C07" and km != ki and km == "ok" and ki in ("panic", "deadlock"):
+            msg = "the implementation ends with '%s' on a program that the verified model of the same schedule runs to completion (threads, joins, scopes and thread-locals only)" % vi
         if msg:
             nverd += 1
             if nverd <= 3:
